@@ -415,6 +415,19 @@ theorem dnfSubset_iff (n : Nat) (A B : DNF) (hA : DWF n A) (hB : DWF n B) :
 theorem dnfEquiv_iff (n : Nat) (A B : DNF) (hA : DWF n A) (hB : DWF n B) :
     dnfEquiv n A B = true ↔ dnfSem A = dnfSem B := Powerset.dnfEquiv_iff n A B hA hB
 
+/-- the variants with the single-disjunct shortcut, as called by the driver -/
+theorem dnfSubsetF_iff (n : Nat) (A B : DNF) (hA : DWF n A) (hB : DWF n B) :
+    dnfSubsetF n A B = true ↔ dnfSem A ⊆ dnfSem B := Powerset.dnfSubsetF_iff n A B hA hB
+
+theorem dnfEquivF_iff (n : Nat) (A B : DNF) (hA : DWF n A) (hB : DWF n B) :
+    dnfEquivF n A B = true ↔ dnfSem A = dnfSem B := Powerset.dnfEquivF_iff n A B hA hB
+
+theorem dnfEmpty_iff (n : Nat) (A : DNF) (hA : DWF n A) : dnfEmpty n A = true ↔ dnfSem A = ∅ :=
+  Powerset.dnfEmpty_iff n A hA
+
+theorem dnfAddCons_sem (A : DNF) (cs : List PPLV.Lin.Con) : dnfSem (dnfAddCons A cs) = dnfSem A ∩ PPLV.Lin.sem cs :=
+  Powerset.dnfAddCons_sem A cs
+
 theorem dnfMinus_sem (n : Nat) (A B : DNF) (hA : DWF n A) (hB : DWF n B) :
     dnfSem (dnfMinus n A B) = dnfSem A \ dnfSem B := Powerset.dnfMinus_sem n A B hA hB
 
